@@ -19,6 +19,7 @@ def setup_symbolic():
 
 def setup_concrete():
     pipeline.setup_concrete()
+    c12.record_real_cvxpy_kwargs()
 
 
 def default_values(case):
@@ -28,7 +29,7 @@ def default_values(case):
 signature_matches = c01.signature_matches
 
 EDITS = ['none', 'replace-initial-condition', 'add-metric', 'add-lmi', 'switch-backend', 'primal-mode', 'trace-heuristic',
-         'failed-middle-solve', 'new-sample', 'inaccurate-second-solve']
+         'failed-middle-solve', 'new-sample', 'inaccurate-second-solve', 'options-first-solve', 'change-parameter']
 
 
 def apply_edit(env, m, edit, tagname=""):
@@ -56,6 +57,12 @@ def apply_edit(env, m, edit, tagname=""):
         met = gu ** 2
         pep.set_performance_metric(met)
         m.metrics.append(met)
+    elif edit == 'change-parameter':
+        # a parameter sweep on one problem object: the class parameter is reassigned between two solves
+        L2 = env.real("Lnew" + tagname, lo=0, lo_strict=True)
+        if env.sym and 'mu' in m.params and m.params['mu'] is not None:
+            env.assume(env.lt(m.params['mu'], L2))
+        m.f.L = L2
     elif edit == 'add-lmi':
         t = Expression()
         a = env.real("lnew" + tagname)
@@ -79,7 +86,11 @@ def prog(env, case):
     pep = m.pep
     held = c02.held_objects(env, m, after=False)
     # ---- solve 1 ------------------------------------------------------------------------------------------
-    t1, e1 = pipeline.safe_solve(env, pep, tag + ":solve1", wrapper=b1, verbose=0)
+    kw1 = {}
+    if edit == 'options-first-solve' and b1 == 'cvxpy':
+        kw1 = dict(solver='SCS', eps=1e-3, max_iters=50000)      # options of the first call only
+    t1, e1 = pipeline.safe_solve(env, pep, tag + ":solve1", wrapper=b1, verbose=2 if edit == 'options-first-solve' else 0,
+                                 **kw1)
     if e1:
         return e1
     n_sent1 = len(pep._list_of_constraints_sent_to_wrapper)
@@ -215,7 +226,7 @@ def prog(env, case):
     # ---- (d) nothing accumulates: same input as a freshly built equivalent model -------------------------------
     r_last = c12.record(env, m, b2)
     m_f = pipeline.build(env, spec)
-    if edit in ('replace-initial-condition', 'add-metric', 'add-lmi', 'new-sample'):
+    if edit in ('replace-initial-condition', 'add-metric', 'add-lmi', 'new-sample', 'change-parameter'):
         apply_edit(env, m_f, edit)
     elif edit == 'inaccurate-second-solve':
         apply_edit(env, m_f, 'replace-initial-condition')
@@ -232,6 +243,11 @@ def prog(env, case):
               "equivalent model %d (one unused leaf - the previous objective - is left behind per solve)"
               % (2 + (edit == 'failed-middle-solve'), r_last['nF'], r_fresh['nF']),
               signature=tag.rsplit(":", 1)[0] + ":unknowns-grow")
+    env.check(r_last['struct'].get('solver_call_options') == r_fresh['struct'].get('solver_call_options'),
+              "the last solve called the solver with options %s, a freshly built equivalent model solved with the same call "
+              "uses %s (options of an earlier solve were kept)" % (r_last['struct'].get('solver_call_options'),
+                                                                  r_fresh['struct'].get('solver_call_options')),
+              signature=tag + ":solver-options")
     rows_last, rows_fresh = _compress(r_last), _compress(r_fresh)
     if env.sym and kw.get('dimension_reduction_heuristic'):
         # the heuristic's own row `first optimum - tol - objective <= 0` carries the solver-output symbol of its own solve
@@ -297,6 +313,10 @@ def cases(tier):
                 if tier == 'quick' and mname in ('lmi-mixed', 'composite-inexact') and edit not in ('none', 'add-metric'):
                     continue
                 if edit == 'inaccurate-second-solve' and (be != 'cvxpy' or mname not in ('gd', 'lmi')):
+                    continue
+                if edit == 'options-first-solve' and (be != 'cvxpy' or mname not in ('gd', 'lmi')):
+                    continue
+                if edit == 'change-parameter' and mname not in ('gd', 'lmi'):
                     continue
                 cs.append(dict(id="%s-%s-%s" % (mname, edit, be), mname=mname, spec=spec, edit=edit, backend=be,
                                input_zero_tests='generic', output_branches='first'))
